@@ -9,7 +9,7 @@ from .c04 import _present, zone_grid
 
 PROP = "C02"
 RULE = ("Generator: zones rasters (int/float ids incl. negative and fractional, scattered per cell, NaN/+-inf zone cells) x value rasters "
-        "(int8..int64/uint8/float32/float64, NaN/+-inf cells) x nodata {None, present, absent, 0, equal to a zone id} x zone_ids {None, subsets, "
+        "(int8..int64/uint8/float32/float64, NaN/+-inf cells; zones and values independently C-/Fortran-ordered, strided views or read-only) x nodata {None, present, absent, 0, equal to a zone id} x zone_ids {None, subsets, "
         "permutations, absent ids} x stats_funcs {non-empty ordered subsets of the seven names, dict of order-independent user reducers} x "
         "return_type {DataFrame, DataArray}. Oracle: brute-force per-zone masks, statistics in float64 (fsum). Non-trivial: >= 2 zones present and one "
         "of: interleaved zones, an invalid cell inside a zone, a non-finite zone cell, a requested id that is absent, an empty zone. Distinct by SHA-1.")
@@ -28,8 +28,8 @@ def body_stats(case, ctx):
     names = case["stats"]
     user = case.get("user", False)
     rt = case["return_type"]
-    zones = S.mk_da(case["zones"], ycoord=case.get("y"), xcoord=case.get("x"))
-    values = S.mk_da(case["values"], ycoord=case.get("y"), xcoord=case.get("x"), attrs=case.get("attrs"))
+    zones = S.mk_da(case["zones"], ycoord=case.get("y"), xcoord=case.get("x"), layout=case.get("zlayout", "C"))
+    values = S.mk_da(case["values"], ycoord=case.get("y"), xcoord=case.get("x"), attrs=case.get("attrs"), layout=case.get("vlayout", "C"))
     ids, table = Z.ref_stats_table(zn, vn, zone_ids, nodata, names)
     present = Z.zone_ids_present(zn)
     vm = Z.valid_mask(vn, nodata)
@@ -56,7 +56,8 @@ def body_stats(case, ctx):
                        ("absent_id", absent), ("empty_zone", empty_zone), ("user_reducers", user)]:
         if flag:
             r.label(name)
-    r.label("rt=" + rt.split(".")[-1], "vdtype=" + str(vn.dtype), "zdtype=" + str(zn.dtype))
+    r.label("rt=" + rt.split(".")[-1], "vdtype=" + str(vn.dtype), "zdtype=" + str(zn.dtype),
+            "layouts=%s/%s" % (case.get("zlayout", "C"), case.get("vlayout", "C")))
     if zn.dtype.kind == "f" and bool(np.isneginf(zn).any()):
         r.label("neg_inf_zone")
 
@@ -152,7 +153,8 @@ def stats_cases(draw, max_side, max_zones=5):
     return {"sub": "stats", "zones": zones, "values": {"dtype": vdtype, "data": vdata}, "nodata": nodata, "zone_ids": zone_ids,
             "stats": names, "user": user, "default_stats": (not user) and draw(st.integers(0, 9)) == 0 and False,
             "return_type": draw(st.sampled_from(["pandas.DataFrame", "pandas.DataFrame", "xarray.DataArray"])),
-            "y": draw(S.axis_coords(h)), "x": draw(S.axis_coords(w)), "attrs": draw(st.sampled_from([{}, {"res": [1, 2], "nodata": -1}]))}
+            "y": draw(S.axis_coords(h)), "x": draw(S.axis_coords(w)), "attrs": draw(st.sampled_from([{}, {"res": [1, 2], "nodata": -1}])),
+            "zlayout": draw(st.sampled_from(["C", "C", "F", "view", "ro"])), "vlayout": draw(st.sampled_from(["C", "C", "F", "view", "ro"]))}
 
 
 def shards(tier):
